@@ -72,6 +72,9 @@ def run(ch, tier):
             chart.add_transition(Transition(src, t2, event=evn, action='P.act(9000, event)', priority=-5))
             chart.add_transition(Transition(src, t3, event=evn, action='P.act(9001, event)', priority=0))
             chart.add_transition(Transition(src, t2, event=evn, action='P.act(9000, event)', priority=5))
+            # and two that differ only by the text of their (equivalent) guard
+            chart.add_transition(Transition(src, t3, event='ez', guard='v >= 0', action='P.act(9002, event)'))
+            chart.add_transition(Transition(src, t3, event='ez', guard='0 <= v', action='P.act(9002, event)'))
     base = build_api(sp)
     add_twins(base)
     a = Sim(sp, statechart=base)
